@@ -2,6 +2,7 @@ package main
 
 import (
 	"fmt"
+	"go/token"
 	"go/types"
 	"sort"
 	"strings"
@@ -121,6 +122,36 @@ func runC19(c *Ctx, w *World, r *Report) {
 	}
 	sort.Slice(scopeFns, func(i, j int) bool { return w.FuncName(scopeFns[i]) < w.FuncName(scopeFns[j]) })
 	r.Units["functions_in_scope"] = nreach
+	// R-NOCAP: capacity is not part of a value
+	r.Rule("R-NOCAP", "no function reachable from the API lets its result depend on the capacity of memory it was handed: cap(x) of a value derived from a parameter or receiver is used, if at all, only as the capacity of an allocation. Two slices with equal contents answer alike; spare capacity (a bitmap grown by append, a prefix of a larger buffer) is invisible")
+	ncap := 0
+	for _, f := range scopeFns {
+		eachInstr(f, func(ins ssa.Instruction) {
+			call, ok := ins.(*ssa.Call)
+			if !ok {
+				return
+			}
+			b, ok := call.Common().Value.(*ssa.Builtin)
+			if !ok || b.Name() != "cap" || len(call.Common().Args) != 1 || !derivesFromParam(call.Common().Args[0], 0) {
+				return
+			}
+			ncap++
+			bad := ""
+			if refs := call.Referrers(); refs != nil {
+				for _, u := range *refs {
+					if mk, isMk := stripConvUser(u).(*ssa.MakeSlice); isMk && stripConv(mk.Cap) == ssa.Value(call) && stripConv(mk.Len) != ssa.Value(call) {
+						continue
+					}
+					if _, isDbg := u.(*ssa.DebugRef); isDbg {
+						continue
+					}
+					bad = "cap() of an argument is used at " + w.InstrPos(u) + ": the answer depends on spare capacity, which is no part of the argument's value"
+				}
+			}
+			r.Check(bad == "", "R-NOCAP", w.FuncName(f)+"|"+w.InstrPos(call), w.InstrPos(call), bad, "capacity used only to size an allocation")
+		})
+	}
+	r.OK("R-NOCAP", "scope", "-", fmt.Sprintf("%d functions scanned, %d uses of cap() on argument-derived memory", len(scopeFns), ncap))
 	r.Units["functions_summarised"] = len(e.Sum)
 
 	// direct writers of each global
@@ -311,4 +342,48 @@ func init() {
 		Thorough: allThorough,
 		Run:      runC19,
 	})
+}
+
+// derivesFromParam: v is (a view of) memory handed in through a parameter or receiver: the parameter itself, a field of
+// it, a re-slice or conversion of such, or a merge one of whose alternatives is.
+func derivesFromParam(v ssa.Value, depth int) bool {
+	if depth > 8 {
+		return false
+	}
+	switch x := v.(type) {
+	case *ssa.Parameter:
+		return true
+	case *ssa.FreeVar:
+		return true
+	case *ssa.Slice:
+		return derivesFromParam(x.X, depth+1)
+	case *ssa.ChangeType:
+		return derivesFromParam(x.X, depth+1)
+	case *ssa.Convert:
+		return derivesFromParam(x.X, depth+1)
+	case *ssa.UnOp:
+		if x.Op == token.MUL {
+			return derivesFromParam(x.X, depth+1)
+		}
+	case *ssa.FieldAddr:
+		return derivesFromParam(x.X, depth+1)
+	case *ssa.Field:
+		return derivesFromParam(x.X, depth+1)
+	case *ssa.Alloc:
+		// a spilled parameter
+		if refs := x.Referrers(); refs != nil {
+			for _, u := range *refs {
+				if st, ok := u.(*ssa.Store); ok && st.Addr == ssa.Value(x) && derivesFromParam(st.Val, depth+1) {
+					return true
+				}
+			}
+		}
+	case *ssa.Phi:
+		for _, e := range x.Edges {
+			if e != v && derivesFromParam(e, depth+1) {
+				return true
+			}
+		}
+	}
+	return false
 }
